@@ -7,7 +7,7 @@ VERIF = os.path.dirname(os.path.dirname(os.path.abspath(__file__)))
 TECH = "deterministic simulation with fault injection: seeded cooperating-client histories on real meshes vs. reference model"
 CHECKS = {
     "C01": ("exploration", "2 3.C01",
-            "Seeded histories of cooperating clients (builder, mutator, deleter, swapper, collector, toggler, clearer, property clients) on poly/tet/hex meshes in all four deletion modes; after every op a brute-force inverse of the mesh's own edge/face/cell arrays is compared with outgoing/incoming halfedges, halfedge_halffaces, incident_cell and every derived query (v->v/e/f/hf/c, he->f/c, e->hf/f/c, c->c, valences, is_boundary x6, boundary iterators). Sampling, not proof.",
+            "Seeded histories of cooperating clients (builder, mutator, deleter, swapper, collector, toggler, clearer, property clients) on poly/tet/hex meshes (tets, hexes on a lattice, prisms, pyramids, two-sided pillow cells, fans of 3..40 tets around one edge, loops, 2-gons, duplicate edges) in all four deletion modes; after every op a brute-force inverse of the mesh's own edge/face/cell arrays is compared with outgoing/incoming halfedges, halfedge_halffaces, incident_cell and every derived query (v->v/e/f/hf/c, he->f/c, e->hf/f/c, c->c, valences, is_boundary x6, boundary iterators). Sampling, not proof.",
             "Trusts the harness's valid-argument generators as the precondition space; meshes <= ~40 vertices, plans <= ~120 ops; order of answers is compared only as multisets (C09 judges order)."),
     "C02": ("exploration", "3.C02",
             "Every deletion (any entity kind, any mode, any bottom-up subset, interleaved with additions, clear, mode switches) is compared with the reference model's upward closure: survivors slot for slot (predicted renumbering, falling back to uid-tag isomorphism), counters, logical counters, deleted flags, needs_garbage_collection, genus.",
@@ -22,7 +22,7 @@ CHECKS = {
             "In every state reached by the histories (deleted prefixes/middles/suffixes, empty meshes): the six entity iterators via begin/end, iter()+valid(), range-for and backward stepping yield the live handles ascending / descending; all 26 circulators plus boundary_halfface_halffaces: forward sequence equals the expected incident list (brute force for bottom-up ones, stored definition order for top-down ones) repeated max_laps (1..3) times, no duplicates where the relation is a set, begin/end loop agrees, end == begin advanced past the last lap, --(++it) == it at every position incl. lap boundaries, empty centre => invalid circulator and empty range.",
             "Each centre is checked for one lap count (rotating 1,2,3) and every fifth centre for all three; behaviour of -- from begin and of ++/-- on an invalid iterator is not demanded; tet/hex circulators are covered by C15/C16."),
     "C06": ("exploration", "3.C06",
-            "Checkpointer client inside the histories (poly/tet/hex meshes after deletions+collection, swaps, open cells, duplicate edges, special positions incl. NaN/-0/denormals, width-boundary meshes 255/256/257 and in thorough 65535/65536/65537): persistent properties of all 30 OVMB codec types (and the ASCII typeName list) on all 7 entity kinds with non-trivial defaults plus the tracked int/bool/double/string/Vec3d properties. (1) write->read into same kernel, polyhedral and (when the content allows) tet/hex meshes with topology check on/off and bottom-up on/off: counts, definitions handle for handle, positions bit-exact, property set, values, defaults; ASCII: second round trip is a fixed point; (2) independent decoder written from the kaitai description decodes the writer's bytes to the model; (3) three seeded legal re-encodings per image (chunks split into spans, wider handle/valence encodings, variable valence, non-zero handle offsets, float vertices when exact, DIRP after topology, optional unknown chunks) read to the same mesh; (4) topo_type()/vertex_dim()/isHexahedralMesh/isTetrahedralMesh agree with the model; (5) pending deletions: refused or logical content; restart-through-file adds loaded meshes to the population. Only benign transfer behaviour (chunked reads, writer buffer knob).",
+            "Checkpointer client inside the histories (poly/tet/hex meshes after deletions+collection, swaps, open cells, duplicate edges, special positions incl. NaN/-0/denormals, width-boundary meshes 255/256/257 and in thorough 65535/65536/65537): persistent properties of all 30 OVMB codec types (and the ASCII typeName list; strings with arbitrary bytes incl. NUL and line breaks in both formats) on all 7 entity kinds with non-trivial defaults plus the tracked int/bool/double/string/Vec3d properties. (1) write->read (stream overloads, and through real files with ovmb_write(path) / FileManager::writeFile + IO::read_file) into same kernel, polyhedral and (when the content allows) tet/hex meshes with topology check on/off and bottom-up on/off: counts, definitions handle for handle, positions bit-exact, property set, values, defaults; ASCII: second round trip is a fixed point; (2) independent decoder written from the kaitai description decodes the writer's bytes to the model; (3) three seeded legal re-encodings per image (chunks split into spans, wider handle/valence encodings, variable valence, non-zero handle offsets, float vertices when exact, DIRP after topology, optional unknown chunks) read to the same mesh; (4) topo_type()/vertex_dim()/isHexahedralMesh/isTetrahedralMesh agree with the model; (5) pending deletions: refused or logical content; restart-through-file adds loaded meshes to the population. Only benign transfer behaviour (chunked reads, writer buffer knob).",
             "ASCII values are restricted to what the text format denotes with 6 significant digits; tet/hex files are assumed to require fixed valences (the reader's documented rule); user-registered codecs and files > ~2 MiB are out of reach."),
     "C07": ("exploration", "3.C07",
             "Fault-injecting checkpointer: images written from history meshes, then 1-3 seeded faults per load: bit flips, byte replacement, insertion, deletion, block duplication, truncation, splices, arbitrary bytes, located header/sub-header fields set to boundary values (field locations from the independent decoder), chunks dropped/duplicated/swapped, payloads shortened with consistent framing (reaches the codecs behind the framing checks), DIRP defaults shortened, TOPO handle bytes permuted, spans grown together with their payload, handle encoding None, faults applied to seeded legal re-encodings of the image as well as to the writer's bytes; ASCII: lines/tokens dropped, repeated, replaced by non-numeric / huge / negative text; allocator faults (per-request cap 48 MiB, fail the k-th allocation). Loaded into poly/tet/hex meshes with both topology_check settings. Oracles: ASan+UBSan with container annotations, step-clock liveness (budget 250M + 6000 instrumented edges per image byte; an overrun only counts without consumed bytes or allocations in the trailing quarter), outcome in {error, false, bad_alloc/length_error/std exception}, and on success: every stored handle in range, every property sized to its entity count, the incidence battery runs on the result.",
@@ -34,25 +34,25 @@ CHECKS = {
             "On every live edge and face of every reached state: opposite halfedge swaps endpoints, halfface(opposite) is the reversed list of opposite halfedges, opposite twice is the identity, all handle conversions (static and member) are mutually inverse on the handles of the state, on boundary indices and on 16 random indices < 2^30 per state; every face is a closed loop; vertex/halfedge/edge circulators of the two sides enumerate the same cycle in opposite directions; next/prev_halfedge_in_halfface are inverse steps.",
             "The clause 'for every index in [0,2^30) exhaustively' is enumeration of a pure function and is outside this technique: only sampled indices are checked."),
     "C09": ("exploration", "3.C09",
-            "In histories without set_face/set_cell, after every op an independent recogniser classifies each edge from the top-down arrays; for single-fan edges (closed ring or one open chain) both halfedges' halfface lists must be in rotational order (successor = opposite of the in-cell neighbour, boundary only last) and mirror each other; adjacent_halfface_in_cell on every closed cell equals the brute-force partner, accepts either orientation when unambiguous, and is an involution. What varies is the order in which cells are attached/removed around an edge, toggles, swaps and collections.",
+            "In histories without set_face/set_cell, after every op an independent recogniser classifies each edge from the top-down arrays; for single-fan edges (closed ring or one open chain) both halfedges' halfface lists must be in rotational order (successor = opposite of the in-cell neighbour, boundary only last) and mirror each other; adjacent_halfface_in_cell on every closed cell equals the brute-force partner, accepts either orientation when unambiguous, and is an involution. What varies is the order in which cells are attached/removed around an edge, toggles, swaps and collections; cells containing both halffaces of a face (pillows) and fans of up to 40 cells are generated.",
             "Edges the recogniser cannot classify (faces containing the edge twice, cells with !=2 halffaces at the edge, disconnected fans) are skipped and counted, never failed."),
     "C10": ("exploration", "3.C10",
             "In reached states with all incidences on: find_halfedge on all ordered vertex pairs (sampled beyond 150), find_halfface / find_halfface_extensive / find_halfface_in_cell / find_halfedge_in_cell on tuples taken from faces (rotated, reversed, one vertex replaced, reordered beyond the third, shortened) and random tuples, find_halfface(halfedge pair), get_halfface_vertices x3, is_incident, n_vertices_in_cell; oracle = brute-force search over live definitions: sound (returned entity is live and really matches) and complete (invalid only if nothing qualifies).",
             "Where duplicate edges/faces or faces with repeated vertices make several answers qualify or the documented 'first three checked' shortcut ambiguous, the case is skipped."),
     "C11": ("exploration", "3.C11",
-            "Builder issues valid and invalid argument lists (open/reversed/repeated halfedges, missing/doubled/flipped halffaces, both orientations, wrong valence for tet/hex) with topology check on all three kernels, with and without vertex incidences and in deferred states with deleted edges between the vertices; oracle = acceptance predicate of the statement, exact definition of the appended entity, full snapshot equality after a rejected call, add_edge dedup returns a live joining edge.",
+            "Builder issues valid and invalid argument lists (open/reversed/repeated halfedges, missing/doubled/flipped halffaces, both orientations, wrong valence for tet/hex, one face replaced by a flap that shares one edge, arbitrary lists of free halffaces of the mesh as it is, the empty list) with topology check on all three kernels, with and without vertex incidences and in deferred states with deleted edges between the vertices; oracle = acceptance predicate of the statement, exact definition of the appended entity, full snapshot equality after a rejected call, add_edge dedup returns a live joining edge.",
             "Empty lists, same-size duplicated lists and all-sides-flipped cells are generated; hex checked add_cell may store a permuted valid list reordered (C16 judges the order)."),
     "C12": ("exploration", "3.C12",
             "Toggler client disables/re-enables any subset of vertex/edge/face incidences anywhere in histories with deletions in all modes, swaps and collections; every state is compared with the reference model (which has no caches, i.e. is the always-enabled twin), ASan with container annotations watches the cleared cache vectors, and after re-enabling the C01 brute-force battery must hold.",
             "Queries are only issued for enabled kinds; order of re-computed incidences is compared as multisets."),
     "C13": ("exploration", "3.C13",
-            "Forker client copy-constructs, assigns, self-assigns and destroys replicas (<=3) at arbitrary instants; the new replica must equal the model clone (entities, definitions, positions, deletion state, modes, incidence flags, persistent properties by value, non-persistent absent), and after every later op on one replica every other replica's structure, property values and registry are re-verified unchanged; handles held into an assigned-to mesh stay usable (ASan), sized, not findable.",
+            "Forker client copy-constructs, assigns (also from a freshly built property-less mesh and through the other kernels), self-assigns and destroys replicas (<=3) at arbitrary instants; the new replica must equal the model clone (entities, definitions, positions, deletion state, modes, incidence flags, persistent properties by value, non-persistent absent), and after every later op on one replica every other replica's structure, property values and registry are re-verified unchanged; handles held into an assigned-to mesh stay usable (ASan), sized, not findable.",
             "Cross-kernel copies (tet/hex kernel -> polyhedral kernel and the kernels' own copy/assign) are covered; copying into a more specific kernel is not offered by the API."),
     "C14": ("exploration", "3.C14",
             "Registry histories over 5 value types x 7 entity kinds x a pool of 4 colliding names with 8 client handle slots: request/create_shared/create_persistent/create_private/get/exists/set_shared/set_persistent/set_name, handle copy/move/drop, clear_props, clear, mesh copy/assign/destroy; oracle = registry state-machine model (lookup results, same-storage identity, exceptions and nothing-changed, n_props/n_persistent_props, persistent=>shared=>named-unique), ASan for every destruction order, detached handles keep size and values.",
             "create_shared/persistent with the empty name are generated (must throw and change nothing); at most 8 client handle slots and 4 names per run."),
     "C15": ("exploration", "3.C15",
-            "Tet-kernel histories (add via halffaces and via the kernel's vertex entry points, glue along faces/edges/vertices, rejected adds, deletions in all modes, swaps, collections, edge collapses): shape invariants (3 edges per face, 4 faces / 4 distinct vertices per cell); for every cell x halfface x halfedge: get_cell_vertices (4 forms), halfface_opposite_vertex / vertex_opposite_halfface inverse, tv_iter incl. circulator protocol; TetTopology for all 12 (halfface, start vertex) choices x 2 constructors plus the (cell, vertex) and (cell) constructors: four distinct vertices, 12 labelled halfedges join their labelled vertices, 20 labelled inner/outer halffaces have the labelled vertex cycle and belong to the cell (outer: opposite), get_label inverts the accessors, TriangleTopology agrees. collapse_edge on halfedges that satisfy the link condition (computed on the model's simplicial closure): resulting oriented cell set == model (cells without both a and b, a->b), returned handle designates b (uid tag), in all four deletion modes.",
+            "Tet-kernel histories (add via halffaces and via the kernel's vertex entry points, glue along faces/edges/vertices, rejected adds, deletions in all modes, swaps, collections, edge collapses): shape invariants (3 edges per face, 4 faces / 4 distinct vertices per cell); for every cell x halfface x halfedge: get_cell_vertices (4 forms), halfface_opposite_vertex / vertex_opposite_halfface inverse, tv_iter incl. circulator protocol; TetTopology for all 12 (halfface, start vertex) choices x 2 constructors plus the (cell, vertex) and (cell) constructors, triangle_topology for all 24 halfface labels through the run-time and the compile-time overload: four distinct vertices, 12 labelled halfedges join their labelled vertices, 20 labelled inner/outer halffaces have the labelled vertex cycle and belong to the cell (outer: opposite), get_label inverts the accessors, TriangleTopology agrees. collapse_edge on halfedges that satisfy the link condition (computed on the model's simplicial closure): resulting oriented cell set == model (cells without both a and b, a->b), returned handle designates b (uid tag), in all four deletion modes.",
             "Collapse candidates exclude meshes with duplicate edges/faces; after a collapse the model is re-synchronised from the mesh (entity-level renumbering of a collapse is not specified), property values are compared again from then on."),
     "C16": ("exploration", "3.C16",
             "Hex-kernel histories: hexes on a 3x3x3 integer lattice (blocks of arbitrary shape with shared faces, interior edges, sheets) and free-standing/glued hexes, built through halfface lists (canonical, and permuted with topology check) and through the kernel's 8-vertex entry point; deletions/GC/swaps included. Oracle from the class documentation: 4 edges per face, 6 faces / 8 distinct vertices per cell, halffaces 2k/2k+1 vertex-disjoint, walking the first halfface meets 2,4,3,5 cyclically, orientation / opposite_halfface_handle_in_cell / x,y,z accessors / get_oriented_halfface agree with the list, orthogonal_orientation == cross product of signed axes, hex_vertices first four / last four / 0-4,1-7,2-6,3-5 edge pattern, csc_iter == neighbours across the four orthogonal halffaces, hfshf_iter and adjacent_halfface_on_sheet == matching halffaces of those neighbours, circulator protocol for hv/csc.",
@@ -61,7 +61,7 @@ CHECKS = {
             "Swapper client swaps any two slots of each kind (same, adjacent, sharing a super-entity, deferred-deleted, first/last) under every incidence subset; the model transposes two slots and the SUT must equal it exactly (no renumbering fallback): definitions, flags, every property incl. side-by-side half-entity values; swap twice == identity is implied by the model and checked op by op.",
             "Incidence caches are checked by C01's battery in the C01/C12 checks, not here."),
     "C20": ("exploration", "2.9 3.C20",
-            "Frozen world: a seeded history builds a poly/tet/hex mesh (with deferred-deleted entities and client properties) inside a private arena; then the arena and the executable's writable image (.data/.bss, full RELRO) are mprotect-ed read-only while 2..16 logical readers run programs of const queries (6 entity iterators, 26 circulators, boundary iterators, lookups, valence/boundary queries, definitions, positions, geometry, property reads through existing handles, tet/hex queries) decomposed into micro-steps; a seeded scheduler picks which reader performs its next micro-step, so many half-advanced iterators of different readers are alive at once. Oracle (a): any write to frozen memory during a const call traps (SIGSEGV) and is reported with the query in progress - a statement about every schedule, since a data race needs a write; C++11 guarded static initialisation is exempt, and memory allocated inside such an initialiser is taken from the arena and frozen afterwards. Oracle (b): each reader's observation log under the interleaving equals its log when run alone.",
+            "Frozen world: a seeded history builds a poly/tet/hex mesh (with deferred-deleted entities, client properties, fans of up to 40 cells around an edge; in 45% of the runs a seeded subset of incidence kinds is switched off and on again right before freezing, as file readers and StatusAttrib collection do) inside a private arena; then the arena and the executable's writable image (.data/.bss, full RELRO) are mprotect-ed read-only while 2..16 logical readers run programs of const queries (6 entity iterators, 26 circulators, boundary iterators, lookups, valence/boundary queries, definitions, positions, geometry, property reads through existing handles, tet/hex queries) decomposed into micro-steps; a seeded scheduler picks which reader performs its next micro-step, so many half-advanced iterators of different readers are alive at once. Oracle (a): any write to frozen memory during a const call traps (SIGSEGV) and is reported with the query in progress - a statement about every schedule, since a data race needs a write; C++11 guarded static initialisation is exempt, and memory allocated inside such an initialiser is taken from the arena and frozen afterwards. Oracle (b): each reader's observation log under the interleaving equals its log when run alone.",
             "Plain (non-sanitizer) build, one process per run. A const function publishing freshly allocated heap memory only through foreign DSOs' data would escape (a) and be seen by (b) only at micro-step granularity. No real threads: TSan would see nothing under a serialising scheduler."),
 }
 NOT_YET = {
